@@ -469,6 +469,9 @@ func (x *Exec) unary(env *evalEnv, n *ast.UnaryExpr) Val {
 		return x.expr(env, n.X)
 	case token.AND:
 		return x.addrOf(env, n)
+	case token.ARROW:
+		v, _ := x.recv(env, n)
+		return v
 	}
 	x.fail(n.Pos(), "UNSUPPORTED unary %s", n.Op)
 	return Val{}
@@ -876,6 +879,7 @@ func (x *Exec) sliceExpr(env *evalEnv, n *ast.SliceExpr) Val {
 	es := x.ctx.Sort(sl.Elem())
 	arr := x.ctx.Fresh("resl", fmt.Sprintf("(Array Int %s)", es))
 	x.st.assume(fmt.Sprintf("(forall ((i Int)) (! (= (select %s i) (select %s (+ i %s))) :pattern ((select %s i))))", arr, x.ctx.slArr(base), lo, arr))
+	x.st.assume(fmt.Sprintf("(forall ((j Int)) (! (= (select %s (- j %s)) (select %s j)) :pattern ((select %s j))))", arr, lo, x.ctx.slArr(base), x.ctx.slArr(base)))
 	return Val{x.ctx.mkSlice(base.Ty, arr, "(- "+hi+" "+lo+")", "false"), base.Ty}
 }
 
@@ -916,7 +920,7 @@ func (x *Exec) composite(env *evalEnv, n *ast.CompositeLit, t types.Type) Val {
 		}
 		return Val{fmt.Sprintf("(mk_%s %s)", srt, strings.Join(vals, " ")), t}
 	case *types.Slice:
-		arr := fmt.Sprintf("((as const (Array Int %s)) %s)", x.ctx.Sort(u.Elem()), x.ctx.Zero(u.Elem()))
+		arr := x.ctx.constArr("Int", x.ctx.Sort(u.Elem()), x.ctx.Zero(u.Elem()))
 		for i, el := range n.Elts {
 			if _, ok := el.(*ast.KeyValueExpr); ok {
 				x.fail(el.Pos(), "UNSUPPORTED keyed slice literal")
@@ -985,4 +989,27 @@ func (x *Exec) storeCell(ref string, v Val, t types.Type) {
 	}
 	f := x.cellField(t)
 	x.st.heap[f] = fmt.Sprintf("(store %s %s %s)", x.heapOf(x.st, f), ref, v.S)
+}
+
+// recv models a channel receive under assumption A-seq (one sender, one receiver, unbuffered channel):
+// the k-th receive yields spec_recv(k) with ok == spec_recvOK(k); a closed channel yields the zero value.
+// The ghost counter "fetched" counts receives.
+func (x *Exec) recv(env *evalEnv, n *ast.UnaryExpr) (Val, Val) {
+	ct, ok := x.typeOf(env, n.X).Underlying().(*types.Chan)
+	if !ok {
+		x.fail(n.Pos(), "receive from non-channel")
+	}
+	x.expr(env, n.X)
+	g, ok := x.st.ghost["fetched"]
+	if !ok {
+		x.fail(n.Pos(), "UNSUPPORTED channel receive (no ghostvar fetched declared for this package)")
+	}
+	es := x.ctx.Sort(ct.Elem())
+	x.ctx.decl("fun:sf_spec_recv", fmt.Sprintf("(declare-fun sf_spec_recv (Int) %s)", es))
+	x.ctx.decl("fun:sf_spec_recvOK", "(declare-fun sf_spec_recvOK (Int) Bool)")
+	okT := "(sf_spec_recvOK " + g.S + ")"
+	v := Val{ite(okT, "(sf_spec_recv "+g.S+")", x.ctx.Zero(ct.Elem())), ct.Elem()}
+	x.st.ghost["fetched"] = Val{"(+ " + g.S + " 1)", tInt}
+	x.trustedUsed["A-seq: unbuffered channel with one sender and one receiver delivers the k-th send to the k-th receive; a closed channel yields the zero value"] = true
+	return v, Val{okT, tBool}
 }
